@@ -91,6 +91,18 @@ def main(argv=None):
 
     with ThreadPoolExecutor(max_workers=args.jobs) as ex:
         results = list(ex.map(lambda s: run_worker(modname, s, timeout), specs))
+    # A batch that gave no verdict (worker died / timed out, or cases ended inconclusive: kernel timers, loopback ports, a loaded machine)
+    # and reported no failure is run once more, alone, in a fresh worker.  A batch that reported a failure is never run again.
+    retried = 0
+    for i, (spec, res) in enumerate(zip(specs, results)):
+        if args.replay:
+            break
+        no_verdict = 'worker_error' in res or (res.get('inconclusive') and not res.get('failures'))
+        if no_verdict:
+            second = run_worker(modname, spec, timeout)
+            retried += 1
+            if 'worker_error' not in second and not (second.get('inconclusive') and not second.get('failures')):
+                results[i] = second
 
     known = load_known(prop)
     evaluations = 0
@@ -102,6 +114,8 @@ def main(argv=None):
     samples = []
     inconclusive = []
     extra = {}
+    if retried:
+        extra['batches_run_a_second_time_after_giving_no_verdict'] = retried
     for spec, res in zip(specs, results):
         if 'worker_error' in res:
             inconclusive.append('worker failed on batch %s: %s | %s' % (
